@@ -202,10 +202,19 @@ class CoopQueue:
         self.s.record(k='drain', popped=True)
 
     def qsize(self):
+        self.s.point(_tid())
+        self.s.record(k='qsize', v=len(self.items))
         return len(self.items)
 
     def empty(self):
+        self.s.point(_tid())
+        self.s.record(k='qempty', v=not self.items)
         return not self.items
+
+    def full(self):
+        self.s.point(_tid())
+        self.s.record(k='qfull', v=self._full())
+        return self._full()
 
 
 class _QueueModule:
@@ -265,6 +274,8 @@ class CoopThread:
         self.s.record(k='join')
 
     def is_alive(self):
+        self.s.point(_tid())
+        self.s.record(k='alive', v=not self.done)
         return not self.done
 
 
@@ -647,3 +658,72 @@ class LpmRun:
         elif not self.deadlock:
             out.insert(at, {'k': 'drained'})
         return out
+
+
+class ApiLpmRun:
+    """the same simulated pool, but reached through the dataset API: `ds.map(fn, num_workers, buffer_size)`
+    (ParMapDataset) and multi-worker `ds.prefetch(w, b)` (PrefetchDataset), iterated plainly or through
+    `.items()`.  Judged by the oracles only (results, read-ahead bounds, clean stop)."""
+
+    def __init__(self, via, w, b, items, fn, stop_after, chooser, with_items):
+        self.via, self.w, self.b, self.items = via, w, b, list(items)
+        self.fn, self.stop_after, self.chooser, self.with_items = fn, stop_after, chooser, with_items
+        self.delivered = []
+        self.raised = None
+        self.deadlock = False
+        self.events = []
+
+    def run(self):
+        import concurrent.futures as real_cf
+        import warnings
+        import lazy_dataset
+        from fnmenu import exc_name
+        pool = CoopPool(self.chooser, self.w)
+        fake = _FuturesModule(pool, real_cf)
+
+        class _Concurrent:
+            futures = fake
+        old_conc = PU.concurrent
+        PU.concurrent = _Concurrent
+
+        def pull_log(x):
+            pool.events.append({'k': 'pull', 'r': x})
+            return x
+        try:
+            with warnings.catch_warnings():
+                warnings.simplefilter('ignore')
+                base = lazy_dataset.new({f'k{i}': x for i, x in enumerate(self.items)})
+                if self.via == 'parmap':
+                    ds = base.map(pull_log).map(self.fn, num_workers=self.w, buffer_size=self.b)
+                else:
+                    ds = base.map(pull_log).map(self.fn).prefetch(self.w, self.b)
+                it = iter(ds.items()) if (self.with_items and self.via == 'parmap') else iter(ds)
+                k = 0
+                try:
+                    while True:
+                        if self.stop_after is not None and k >= self.stop_after:
+                            if k > 0:
+                                pool.events.append({'k': 'close'})
+                                it.close()
+                            break
+                        try:
+                            x = next(it)
+                        except StopIteration:
+                            break
+                        if isinstance(x, tuple):
+                            x = x[1]
+                        pool.events.append({'k': 'result', 'r': x})
+                        self.delivered.append(x)
+                        k += 1
+                except Deadlock:
+                    self.deadlock = True
+                except BaseException as e:  # noqa
+                    self.raised = exc_name(e)
+        finally:
+            PU.concurrent = old_conc
+        pool.control_returned = True
+        self.pool = pool
+        self.events = pool.events
+        self.choices = getattr(self.chooser, 'trace', [])
+        self.pulled = sum(1 for e in pool.events if e['k'] == 'pull')
+        return self
